@@ -186,6 +186,8 @@ def finish(prop, tier, seed, level, results, t_start, repo, functions_under_cont
             rec["native"] = res
             if res.get("status") == "confirmed":
                 rec["failing_input"] = res.get("failing_input")
+            elif res.get("status") == "no-instance-found":
+                tail = " no-failing-input-found"
             elif res.get("status") == "not-reproduced":
                 # engine/model disagrees with the real code: that is a defect of the checker
                 crashes.append((r["task"], "obligation %s refuted in the model but the real code agrees with the oracle natively: %s" % (ob["name"], res.get("detail"))))
